@@ -251,6 +251,46 @@ func (OracleC13) Judge(w *World, b *BlockCtx, p *ProbeResult) {
 		if pl == nil || ownsOrder(p.Before, m.Sender) {
 			return
 		}
+		// tight maximum (counterfactual variants): the same addition allowing exactly the amount of the
+		// second coin it really took, and one unit less: never a panic, CheckTx and DeliverTx agree, and
+		// it is never accepted taking more than allowed
+		if v1, ok := new(big.Int).SetString(p.Tags["tx.volume1"], 10); ok && p.Variant != nil && v1.Sign() > 0 && (p.Height+int64(p.Index))%2 == 0 {
+			for _, max1 := range []*big.Int{v1, new(big.Int).Sub(v1, big.NewInt(1))} {
+				mx := max1
+				alt := Resign(m, w.Sc.Gen.NAcct, func(tx *transaction.Transaction) bool {
+					dd := d
+					dd.MaximumVolume1 = mx
+					enc, err := rlp.EncodeToBytes(dd)
+					if err != nil {
+						return false
+					}
+					tx.Data = enc
+					return true
+				})
+				if alt == nil {
+					break
+				}
+				vr := p.Variant(alt, true)
+				if vr == nil {
+					break
+				}
+				if vr.Err != nil {
+					w.Report("C07", "no-panic", "tight-maximum:"+vr.Phase+"@"+vr.Err.Site, fmt.Sprintf("height %d add-liquidity allowing at most %s of the second coin (it really took %s; CheckTx code %d): %s panics: %v\n%s", p.Height, mx, v1, vr.CheckCode, vr.Phase, vr.Err, trimStack(vr.Err.Stack)), p.Height)
+					return
+				}
+				if (vr.CheckCode == 0) != (vr.Resp.Code == 0) && vr.CheckCode != 113 && vr.CheckCode != 114 {
+					w.Report("C06", "check-deliver", "tight-maximum:addliq", fmt.Sprintf("height %d add-liquidity allowing at most %s of the second coin: CheckTx answers %d, DeliverTx on the same state %d", p.Height, mx, vr.CheckCode, vr.Resp.Code), p.Height)
+					return
+				}
+				if vr.Resp.Code == 0 {
+					if g1, ok := new(big.Int).SetString(vr.Tags["tx.volume1"], 10); ok && g1.Cmp(mx) > 0 {
+						w.Report("C13", "pool-value", "tight-maximum-ignored", fmt.Sprintf("height %d: addition allowing at most %s of the second coin is accepted and takes %s", p.Height, mx, g1), p.Height)
+						return
+					}
+				}
+			}
+			w.Probe("c13_add_tight_maximum_checked")
+		}
 		if m.GasCoin != 0 && (m.GasCoin == pl.Coin0 || m.GasCoin == pl.Coin1) && p.Tags["tx.commission_conversion"] == "pool" {
 			return
 		}
@@ -732,7 +772,7 @@ func init() {
 			return []Monitor{&MonC13{}, &MonProbe{Oracles: []Prober{OracleC13{}}}}
 		},
 		Distinct:     probeDistinct,
-		ExpectProbes: []string{"c13_block_checked", "c13_traded_pool", "c13_traded_pool_with_orders", "c13_remove_checked", "c13_add_checked", "c13_remove_tight_minimum_checked"},
+		ExpectProbes: []string{"c13_block_checked", "c13_traded_pool", "c13_traded_pool_with_orders", "c13_remove_checked", "c13_add_checked", "c13_remove_tight_minimum_checked", "c13_add_tight_maximum_checked"},
 	})
 	register(&PropSpec{ID: "C14", Level: "exploration",
 		Rule: "order-heavy histories: makers place orders around the pool price on several pools, takers trade through 1..4 hop routes and custom commission coins, owners and strangers cancel, orders expire at the configured period, restarts of nothing (single node) but fresh probe nodes load books from disk; oracles per transaction (counterfactual twins): makers receive at least floor(sold*price)-1 per consumed order at the order's own price with refunds of closed remainders, partially filled orders keep their price within one unit and stay above the minimum volume, nothing ahead in the book (price at double precision, then id) is skipped, cancellation only by the owner, once, returning exactly the unfilled amount; per block: expiry exactly at the configured period with exact refund events; distinct non-trivial case = distinct (tx kind, result code) of order/trade transactions",
